@@ -111,6 +111,7 @@ ObsAgrees(p, prevf, c, f, w, hid, fz, o) ==
   /\ Chk("C09", "observation-panicked", ObsOk(o))
   /\ ObsOk(o) =>
        /\ Chk(p, "frame-status", \A h \in Huges(c) : ObsFr(o, prevf, h) = f[h])
+       /\ Chk("C17", "frame-status", c.kind \notin {"zone", "nvm"} \/ \A h \in Huges(c) : ObsFr(o, prevf, h) = f[h])
        /\ Quiescent(c, f, w, hid, fz, o)
        /\ PerClass(c, o)
 
@@ -171,9 +172,11 @@ Reinit ==
   /\ Chk("C09", "rebuild-failed", e.ierr = "")
   /\ Chk("C05", "rebuild-failed", e.ierr = "")
   /\ Chk("C07", "rebuild-failed", e.ierr = "")
+  /\ Chk("C17", "rebuild-failed", e.ierr = "")
+  /\ Chk("C17", "recovered-layout", Has(e, "managed") => (e.managed = cfg.frames /\ e.offrel = 0))
   /\ IF e.ierr = ""
      THEN LET hid == IF e.init = "recover" THEN InitHidden(cfg) ELSE hidden
-              p == IF e.init = "recover" THEN "C05" ELSE "C07"
+              p == IF cfg.kind = "nvm" THEN "C17" ELSE IF e.init = "recover" THEN "C05" ELSE "C07"
           IN /\ hidden' = hid
              /\ ObsAgrees(p, fr, cfg, fr, whole, hid, {}, e.obs)
              /\ ObsOk(e.obs) =>
@@ -368,6 +371,47 @@ SeqChange ==
   /\ c11ok' = FALSE
   /\ l' = l + 1
   /\ UNCHANGED <<props, cfg, fr, whole, pend, lin, held, fuzzy, snap>>
+
+
+----------------------------------------------------------------------------
+\* C17: zone and persistent wrappers.  The harness drives the wrapper with frame
+\* numbers shifted up by the zone's offset and logs them shifted down again, so all
+\* other actions see the wrapped allocator in its own coordinates: a wrong
+\* translation shows up as a misplaced or out-of-range block.
+
+LowerBytes(total, th, ho) ==
+  LET c == [frames |-> total, th |-> th, ho |-> ho]
+  IN NH(c) * (HF(c) \div 8) + NT(c) * 64
+\* frames the persistent wrapper manages in a region of `total` frames:
+\* everything but the header page and the pages of the lower metadata
+NvmManaged(total, th, ho, fsize) == total - 1 - CeilDiv(LowerBytes(total, th, ho), fsize)
+
+Same == UNCHANGED <<props, cfg, fr, whole, hidden, ot, os, drained, c11ok, pend, lin, held, fuzzy, snap>>
+
+ZCreate ==
+  /\ IsEv("zcreate")
+  /\ Chk("C17", "zone-offset-must-be-tree-aligned", (e.res = "ok") = (e.aligned = 1))
+  /\ l' = l + 1 /\ Same
+NvmCreate ==
+  /\ IsEv("nvm_create")
+  /\ Chk("C17", "nvm-created", e.res = "ok")
+  /\ Chk("C17", "nvm-layout", e.res = "ok" =>
+         (e.managed = NvmManaged(e.total, e.th, e.ho, e.fsize) /\ e.offrel = 0))
+  /\ l' = l + 1 /\ Same
+NvmRefuse ==
+  /\ IsEv("nvm_refuse")
+  /\ Chk("C17", "recover-without-matching-instance-refused", e.res = "init")
+  /\ l' = l + 1 /\ Same
+SeqZBelow ==
+  /\ IsEv("sc") /\ e.op = "zbelow" /\ e.res # "panic"
+  /\ Chk("C17", "below-offset-rejected", e.res = "arg")
+  /\ Chk("C08", "below-offset-rejected", e.res = "arg")
+  /\ Chk("C17", "below-offset-not-free", e.res = "panic" \/ e.stat = 0)
+  /\ ObsAgrees("C17", fr, cfg, fr, whole, hidden, fuzzy, e.obs)
+  /\ ot' = e.obs.trees /\ os' = e.obs.slots
+  /\ drained' = FALSE
+  /\ l' = l + 1
+  /\ UNCHANGED <<props, cfg, fr, whole, hidden, c11ok, pend, lin, held, fuzzy, snap>>
 
 ----------------------------------------------------------------------------
 \* Bulk steps (C06, C11): many calls of one kind as a single composed step
@@ -603,7 +647,8 @@ Solo ==
 \* the next event: all in-flight ones (few threads, short programs)
 Next ==
   \/ Hdr \/ Reset \/ Reinit
-  \/ SeqPanic \/ SeqGet \/ SeqPut \/ SeqDrain \/ SeqChange
+  \/ SeqPanic \/ SeqGet \/ SeqPut \/ SeqDrain \/ SeqChange \/ SeqZBelow
+  \/ ZCreate \/ NvmCreate \/ NvmRefuse
   \/ BulkGet \/ BulkPut
   \/ Call \/ Ret \/ Obs \/ Mark \/ Rewind
   \/ Crash \/ Solo
